@@ -675,6 +675,9 @@ func (ex *Exec) callFunc(st *State, fv FuncV, args []Value, call *ssa.CallCommon
 	}
 	if st.depth > 200 {
 		ex.boundExceeded = append(ex.boundExceeded, "call depth > 200 in "+name)
+		if r, m := ex.modelFor(st); r == Sat {
+			ex.recordViolationRaw(Violation{Kind: "unwind", Site: name, Func: name, Msg: "call depth exceeds 200 (unbounded recursion)", Inputs: m, Harness: ex.harness})
+		}
 		return nil
 	}
 	ex.funcs[name] = true
